@@ -18,7 +18,7 @@ func init() {
 		ID: "C08", Level: "exploration", PanicClause: "C08.panic",
 		Cases: func(tier string) int {
 			if tier == "quick" {
-				return 4000
+				return 8000
 			}
 			return 200000
 		},
